@@ -4,7 +4,7 @@ import math
 
 import numpy as np
 
-from ..common import Ctx, Tokens, b2f, close, driver_batch, f2b, fmat, fvec, vec
+from ..common import Ctx, Tokens, close, driver_batch, f2b, fmat, fvec, vec
 
 LEVEL = "proof"
 LEVEL_TEXT = (
@@ -284,7 +284,7 @@ def corr(ctx: Ctx):
                 add(f"C09.average {gt} {fvec(f)}", chk_av)
             # ---- radial components incl. the l_max // 2 rule and the zeroing rule
             if g.n_shells >= 2:
-                gg, _ = g, None
+                gg = g
                 with _SplineSpy(M[0]) as spy:
                     spl = gg.radial_component_splines(f.copy())
                 comps = np.array([y for (_, y) in spy.calls])
@@ -371,8 +371,6 @@ def corr(ctx: Ctx):
                         t = Tokens(ans); t.tok()
                         shape = t.vec(); data = np.array(t.fvec())
                         sc = float(np.sum(np.abs(sN)) + np.sum(np.abs(s0))) / max(1, len(pts)) + 1e-300
-                        with np.errstate(all="ignore"):
-                            rmin = np.where(pts.shape[0] > 0, 1.0, 1.0)
                         # Cartesian: entries are divided by r and r sin(phi); the comparison is relative to the entries themselves
                         if shape != impl[1]:
                             return ctx.fail("corr", key, f"shape {impl[1]} vs model {shape}", witness=info)
